@@ -88,7 +88,20 @@ def incompatible_rejected(ctx, quick):
             fa = a.fuse_legs(axes=((0, 1, 2),), mode='hard')
             fb = b.fuse_legs(axes=((0, 1, 2),), mode='meta')
         if how == 'order' and l[0].s == l[1].s:
-            continue      # exchanging two legs of equal signature is invisible to the fusion history (legs carry no labels)
+            # exchanging two legs of equal signature: the histories differ only through the recorded dimensions; use legs with the SAME charges
+            # and DIFFERENT dimensions, so that the fused dimensions coincide and only the history check can notice
+            if sym == 'dense':
+                continue
+            ts_ = sorted({tgen.rcharge(rng, sym) for _ in range(2)})
+            d0 = [rng.randint(1, 3) for _ in ts_]
+            d1 = [d + 1 for d in d0]
+            p_ = yastn.Leg(cfg, s=1, t=ts_, D=d0); q_ = yastn.Leg(cfg, s=1, t=ts_, D=d1)
+            a = tgen.rtensor(rng, cfg, [p_, q_, l[2]], n=tgen.allowed_charge(rng, cfg, sym, [p_, q_, l[2]]))
+            b = tgen.rtensor(rng, cfg, [q_.conj(), p_.conj(), l[2].conj()], n=cfg.sym.add_charges(a.n, new_signature=-1))
+            fa = a.fuse_legs(axes=((0, 1), 2), mode=mode)
+            fb = b.fuse_legs(axes=((0, 1), 2), mode=mode)
+            if a.size == 0 or b.size == 0:
+                continue
         same_legs = False
         for opname, f in (('tensordot', lambda: yastn.tensordot(fa, fb, axes=(0, 0))), ('vdot', lambda: yastn.vdot(fa, fb.conj())), ('add', lambda: fa + fb.conj())):
             desc = dict(kind='incompatible-fusion', how=how, mode=mode, op=opname, sym=sym, rep=k)
